@@ -1,6 +1,7 @@
 use verif_harness::*;
 use parsley_rust::pcore::parsebuffer::{ParseBuffer, ParseBufferT, ParsleyParser};
 use parsley_rust::pcore::prim_binary::*;
+use parsley_rust::pcore::transforms::{BufferTransformT, RestrictView};
 
 fn show<T: ToString + PartialEq>(
     r: parsley_rust::pcore::parsebuffer::ParseResult<parsley_rust::pcore::parsebuffer::LocatedVal<T>>,
@@ -19,11 +20,27 @@ pub fn run(line: &str) -> String {
     }
     let buf = unhex(w[2]);
     let pos: usize = w[3].parse().unwrap();
-    let mut pb = ParseBuffer::new(buf);
+    // A kind prefixed with 'v' runs the same parser on a RESTRICTED VIEW whose window is exactly
+    // `buf` inside a larger allocation (3 bytes before, 2 after): by C17 a view behaves like a
+    // copy of its window, so the expected output is the same as on the plain buffer.
+    let (kind, mut pb) = if w[0].starts_with('v') {
+        let mut big = vec![0xEEu8, 0x11, 0xEE];
+        let n = buf.len();
+        big.extend_from_slice(&buf);
+        big.extend_from_slice(&[0x77, 0x88]);
+        let parent = ParseBuffer::new(big);
+        let view = match RestrictView::new(3, n).transform(&parent) {
+            Ok(v) => v,
+            Err(_) => return "bad-case".to_string(),
+        };
+        (&w[0][1 ..], view)
+    } else {
+        (w[0], ParseBuffer::new(buf))
+    };
     if pb.set_cursor(pos).is_err() {
         return "bad-case".to_string()
     }
-    if w[0] == "bv" {
+    if kind == "bv" {
         let len: usize = w[1].parse().unwrap();
         let r = ByteVecP::new(len).parse(&mut pb);
         return match r {
@@ -36,7 +53,7 @@ pub fn run(line: &str) -> String {
         "le" => Endian::Little,
         _ => return "bad-case".to_string(),
     };
-    match w[0] {
+    match kind {
         "u8" => show(UInt8P.parse(&mut pb), &pb),
         "u16" => show(UInt16P::new(e).parse(&mut pb), &pb),
         "u32" => show(UInt32P::new(e).parse(&mut pb), &pb),
